@@ -350,10 +350,11 @@ def judge_image(lat, z, rect, img, want_size, mode):
     if mode == 'lossy':
         if n < 64:
             return True, 'too few pixels for a lossy comparison', 0, mode
-        err = float(np.abs(arr[mask].astype(np.int32) - exp[mask].astype(np.int32)).mean())
+        lum = np.array([0.299, 0.587, 0.114])
+        err = float(np.abs((arr[mask] * lum).sum(axis=1) - (exp[mask] * lum).sum(axis=1)).mean())
         if err < LOSSY_T:
             return True, '', n, mode
-        return False, 'jpeg content: mean abs error %.1f against NOISE of the addressed tile (threshold %d, unrelated tiles ~85)' % (err, LOSSY_T), n, mode
+        return False, 'jpeg content: mean abs luminance error %.1f against NOISE of the addressed tile (same tile ~4, unrelated or shifted tiles ~56, threshold %d)' % (err, LOSSY_T), n, mode
     eq = (arr == exp).all(axis=2)
     if eq[mask].all():
         return True, '', n, 'exact'
@@ -373,7 +374,7 @@ def judge_image(lat, z, rect, img, want_size, mode):
         len(bad), n, tuple(bad[0]), tuple(arr[tuple(bad[0])])), n, mode
 
 
-LOSSY_T = 40
+LOSSY_T = 20
 
 
 def is_empty_image(img):
